@@ -3,7 +3,8 @@
    Proofs/MergeHash.v.  The model (Model/Merge.v, Model/MergeConfig.v) is the
    code after the fix: commits listed in docs/C05.md. *)
 From Coq Require Import List Ascii String ZArith NArith Bool.
-From YP Require Import Outcome PyStr PyVal Doc PathParser Searches MergeConfig Merge SpecC05 MergeBasics MergeHash MergeNoCrash.
+From YP Require Import Outcome PyStr PyVal Doc PathParser Searches MergeConfig Merge SpecC05 SpecC05Union MergeBasics MergeHash
+  MergeNoCrash MergeUnion.
 (* obligations tying the models' literal tables to the tables regenerated from the source *)
 From YP Require Import GenTables.
 Import ListNotations.
@@ -43,6 +44,44 @@ Theorem C05_left_frame :
                 unnamed_part (keys_of rkvs) res = unnamed_part (keys_of rkvs) lkvs.
 Proof. exact left_frame. Qed.
 Print Assumptions C05_left_frame.
+
+(* HASHES COMBINE PER KEY (hashes=deep reached the two Hashes).  For all
+   documents, policies and rule tables; the side conditions are the
+   well-formedness of a dict (keys are Scalars; the right-hand keys are
+   pairwise unequal), both computable.
+   Keys: the left keys -- the left key objects -- in their order; the right-only
+   items in the right-hand order (with their values); the two interleaved where
+   the insertion buffer of _merge_dicts writes them (never behind a later
+   right-only item, never reordering left items).
+   Values: left-only -> left value; right-only -> right value; common -> the
+   policy-defined merge of the two values (SpecC05Union.mg_common_value: the
+   policy in force for the right-hand value keeps the left value, takes the
+   right one, or combines the two by the merge of these two values, carrying
+   the right-hand tag). *)
+Theorem C05_hash_union :
+  forall lit cfg ri rkvs nc li lkvs m,
+    mg_keys_leaf lkvs = true -> mg_keys_leaf rkvs = true -> mg_distinct rkvs = true ->
+    merge_rec lit cfg (NMap ri rkvs) nc (NMap li lkvs) = Ok m ->
+    exists res, m = NMap li res /\
+      named_keys (keys_of lkvs) res = map fst lkvs /\
+      unnamed_part (keys_of lkvs) res = unnamed_part (keys_of lkvs) rkvs /\
+      (forall k, named (keys_of rkvs) k = false -> assoc_key k res = assoc_key k lkvs) /\
+      (forall key rv, In (key, rv) rkvs -> assoc_key (key_val key) lkvs = None ->
+         assoc_key (key_val key) res = Some rv) /\
+      (forall key rv lv, In (key, rv) rkvs -> assoc_key (key_val key) lkvs = Some lv ->
+         exists v, mg_common_value lit cfg (oid ri) (key_val key) lv rv = Ok v /\
+                   assoc_key (key_val key) res = Some v).
+Proof. exact hash_union. Qed.
+Print Assumptions C05_hash_union.
+
+(* the key set of the merged Hash is the union of the two key sets *)
+Theorem C05_hash_union_keys :
+  forall lit cfg ri rkvs nc li lkvs res,
+    mg_keys_leaf lkvs = true -> mg_keys_leaf rkvs = true -> mg_distinct rkvs = true ->
+    merge_rec lit cfg (NMap ri rkvs) nc (NMap li lkvs) = Ok (NMap li res) ->
+    forall k, assoc_key k res <> None <-> (assoc_key k lkvs <> None \/ assoc_key k rkvs <> None).
+Proof. exact hash_union_keys. Qed.
+Print Assumptions C05_hash_union_keys.
 
 (* Right-hand scalars override.  FULL statement (false of the code, see the
    _refuted witness): a Scalar under a key both Hashes have replaces the
@@ -194,6 +233,17 @@ Example C05_aoh_deep_example :
               mapn 22 [(k "id", leaf 6 (PInt 2))]]) =
   Ok (seqn 10 [mapn 11 [(k "id", leaf 3 (PInt 1)); (k "v", leaf 5 (PInt 2))]; mapn 22 [(k "id", leaf 6 (PInt 2))]]).
 Proof. vm_compute. reflexivity. Qed.
+
+(* the hypotheses of C05_hash_union hold of that pair, and of a pair with a nested merge *)
+Example C05_hash_union_example :
+  let lk := [(k "a", leaf 3 (PInt 1)); (k "b", mapn 11 [(k "p", leaf 4 (PInt 2))]); (k "c", leaf 5 (PInt 3))] in
+  let rk := [(k "x", leaf 6 (PInt 9)); (k "b", mapn 21 [(k "q", leaf 7 (PInt 7))]); (k "y", leaf 8 (PInt 8))] in
+  mg_keys_leaf lk = true /\ mg_keys_leaf rk = true /\ mg_distinct rk = true /\
+  merge_rec no_lit (cfg_plain None None None None) (mapn 20 rk) (mkcoord 20 None None) (mapn 10 lk) =
+  Ok (mapn 10 [(k "a", leaf 3 (PInt 1)); (k "x", leaf 6 (PInt 9));
+               (k "b", mapn 11 [(k "p", leaf 4 (PInt 2)); (k "q", leaf 7 (PInt 7))]);
+               (k "c", leaf 5 (PInt 3)); (k "y", leaf 8 (PInt 8))]).
+Proof. repeat split; vm_compute; reflexivity. Qed.
 
 (* the hypotheses of C05_no_crash are satisfiable; the NameError case exists *)
 Example C05_no_crash_example :
